@@ -1,5 +1,6 @@
 // C13: ordered lists are linearizable sets and maps (DESIGN.md 9/C13); C18 post-conditions at every quiescent point.
 #include "sets.h"
+#include "seq.h"
 
 #ifndef FAMILY
 #   define FAMILY 1
@@ -38,7 +39,7 @@ namespace ci = cds::intrusive;
 
 namespace {
 
-const char* prop() { return vh::property() == "C18" ? "C18" : vh::property() == "C19" ? "C19" : "C13"; }
+const char* prop() { return vh::property() == "C18" ? "C18" : vh::property() == "C19" ? "C19" : vh::property() == "C20" ? "C20" : "C13"; }
 
 std::vector<Scenario> g_scen;
 
@@ -47,6 +48,11 @@ void family( std::string const& tname, int step, int bq = 2, int bt = 3 )
 {
     typedef SetAdapter<Set, Smr, Caps, prop> A;
     std::string base = tname + "/" + Smr::name();
+    if ( vh::property() == "C20" ) {
+        TProg full = { { INS, 1, 0 }, { INS, 2, 0 }, { INS, 3, 0 } };
+        add_seq_scenarios<A, Caps>( g_scen, base, { 1, 2, 3 }, { 0, 1, 2, 3, 4 }, { TProg(), full }, 3, 4 );
+        return;
+    }
     if ( vh::property() == "C19" ) {
         if ( Caps::safe_iter::value ) add_iter_programs<A, Caps>( g_scen, base, { 0, 2, 4, 6, 5 }, { 0, 1, 2, 3, 4, 5, 6, 7 }, bq, bt );     // the new key 5 goes between 4 and 6
         return;
@@ -104,6 +110,7 @@ struct NogcWrap {
     iterator end() { return l.end(); }
     size_t size() const { return l.size(); }
     bool empty() const { return l.empty(); }
+    void clear() { l.clear(); }
 };
 }
 #endif
